@@ -2,7 +2,7 @@ from common import COMMON_TB
 
 CONFIG = {
     "lean_modules": ["SA.Props.C13"],
-    "level_text": "Proved in Lean over every history of messages (any name/type/source address, any codec behaviour), application-side "
+    "level_text": "Proved in Lean over every history of messages (any name/type/source address, any total codec behaviour: hypothesis Codec.Total, see C12), application-side "
                   "Close/Write calls, clock advances and runs of the pruning task: C13_reachable_invariant + C13_ids_distinct (live slot i holds a "
                   "session with id i; no session in two live slots), C13_spoof_rejected (a message carrying a live id from a non-owner address "
                   "leaves the whole server state equal and is answered BADIP/BADCODEC/dropped, by cases over the command table), "
